@@ -301,12 +301,53 @@ static std::array<int, 4> canon(std::array<int, 4> t) {
     return best;
 }
 
+typedef std::vector<int> Key;      // an entity named by the identity tokens of its vertices
+
 struct CollapsePre {
-    bool applicable = false;
-    int tok_b = 0;
+    bool applicable = false;     // clean simplicial complex AND link condition
+    bool simplicial = false;     // clean simplicial complex: vertex-token tuples name the entities
+    int tok_a = 0, tok_b = 0;
     std::multiset<std::array<int, 4>> expected;
     size_t n_expected_cells = 0;
+    // property tokens before the call, per kind and property, keyed by entity identity
+    std::vector<std::map<Key, long>> P[7];
+    bool amb[7] = {false, false, false, false, false, false, false};
+    std::map<Key, int> he_uses, hf_uses;     // how many rebuilt tets list the halfedge / halfface
+    std::set<Key> rebuilt;                   // cells incident to a that do not contain b
 };
+
+static Key key_sorted(Key k) { std::sort(k.begin(), k.end()); return k; }
+static Key key_rot(Key k) { auto m = std::min_element(k.begin(), k.end()); std::rotate(k.begin(), m, k.end()); return k; }
+static Key tokens(W &w, const std::vector<int> &vs) { Key k; for (int v : vs) k.push_back((int)w.mesh.vertex(VH(v))[0]); return k; }
+static Key he_key(W &w, HEH h) { auto e = w.mesh.halfedge(h); return tokens(w, {e.from_vertex().idx(), e.to_vertex().idx()}); }
+static Key hf_key(W &w, HFH h) { std::vector<int> vs; for (auto he : w.mesh.halfface(h).halfedges()) vs.push_back(w.mesh.halfedge(he).from_vertex().idx()); return key_rot(tokens(w, vs)); }
+static Key cell_key(W &w, CH c) { std::set<int> vs; for (auto hf : w.mesh.cell(c).halffaces()) for (auto he : w.mesh.halfface(hf).halfedges()) vs.insert(w.mesh.halfedge(he).from_vertex().idx()); return key_sorted(tokens(w, std::vector<int>(vs.begin(), vs.end()))); }
+
+// snapshot of every property value by entity identity (live entities only)
+// amb[k]: two live entities of kind k carry the same name (e.g. two cells on the same four vertices after a collapse that
+// violated the link condition): the values of that kind cannot be attributed and are not judged
+static void snap_props(W &w, std::vector<std::map<Key, long>> P[7], bool amb[7]) {
+    auto &m = w.mesh;
+    for (int k = 0; k < 7; ++k) { P[k].clear(); P[k].resize(w.props[k].size()); amb[k] = false; }
+    { std::set<Key> seen;
+      for (int i = 0; i < (int)m.n_edges(); ++i) if (!m.is_deleted(EH(i)) && !seen.insert(key_sorted(he_key(w, HEH(2 * i)))).second) amb[1] = amb[2] = true; }
+    { std::set<Key> seen;
+      for (int i = 0; i < (int)m.n_faces(); ++i) if (!m.is_deleted(FH(i)) && !seen.insert(key_sorted(hf_key(w, HFH(2 * i)))).second) amb[3] = amb[4] = true; }
+    { std::set<Key> seen;
+      for (int i = 0; i < (int)m.n_cells(); ++i) if (!m.is_deleted(CH(i)) && !seen.insert(cell_key(w, CH(i))).second) amb[5] = true; }
+    for (int k = 0; k < 7; ++k) for (size_t p = 0; p < w.props[k].size(); ++p) {
+        auto &pr = *w.props[k][p]; auto &M = P[k][p];
+        switch (k) {
+        case 0: for (int i = 0; i < (int)m.n_vertices(); ++i) if (!m.is_deleted(VH(i)) && (size_t)i < pr.size()) M[tokens(w, {i})] = pr.get(i); break;
+        case 1: for (int i = 0; i < (int)m.n_edges(); ++i) if (!m.is_deleted(EH(i)) && (size_t)i < pr.size()) M[key_sorted(he_key(w, HEH(2 * i)))] = pr.get(i); break;
+        case 2: for (int i = 0; i < 2 * (int)m.n_edges(); ++i) if (!m.is_deleted(EH(i / 2)) && (size_t)i < pr.size()) M[he_key(w, HEH(i))] = pr.get(i); break;
+        case 3: for (int i = 0; i < (int)m.n_faces(); ++i) if (!m.is_deleted(FH(i)) && (size_t)i < pr.size()) M[key_sorted(hf_key(w, HFH(2 * i)))] = pr.get(i); break;
+        case 4: for (int i = 0; i < 2 * (int)m.n_faces(); ++i) if (!m.is_deleted(FH(i / 2)) && (size_t)i < pr.size()) M[hf_key(w, HFH(i))] = pr.get(i); break;
+        case 5: for (int i = 0; i < (int)m.n_cells(); ++i) if (!m.is_deleted(CH(i)) && (size_t)i < pr.size()) M[cell_key(w, CH(i))] = pr.get(i); break;
+        default: if (pr.size() > 0) M[Key{}] = pr.get(0); break;
+        }
+    }
+}
 
 // brute-force: is the mesh a clean simplicial tet complex and does a->b satisfy the link condition?
 static CollapsePre collapse_pre(W &w, int heh) {
@@ -336,6 +377,16 @@ static CollapsePre collapse_pre(W &w, int heh) {
         if (!tets.insert(t).second) return r;
         oriented.push_back(tet_tuple(w, CH(c)));
     }
+    // the mesh is a clean simplicial complex: take the property picture (token oracle, C03 / C15)
+    r.simplicial = true; r.tok_a = tok(w, a); r.tok_b = tok(w, b);
+    snap_props(w, r.P, r.amb);
+    for (int c = 0; c < (int)m.n_cells(); ++c) if (!m.is_deleted(CH(c))) {
+        std::vector<int> vs; wf_tet(w, CH(c), &vs);
+        bool ha = std::find(vs.begin(), vs.end(), a) != vs.end(), hb = std::find(vs.begin(), vs.end(), b) != vs.end();
+        if (!ha || hb) continue;
+        r.rebuilt.insert(cell_key(w, CH(c)));
+        for (auto hf : m.cell(CH(c)).halffaces()) { r.hf_uses[hf_key(w, hf)]++; for (auto he : m.halfface(hf).halfedges()) r.he_uses[he_key(w, he)]++; }
+    }
     auto has_e = [&](int x, int y) { return edges.count({std::min(x, y), std::max(x, y)}) > 0; };
     auto has_t = [&](int x, int y, int z) { std::array<int, 3> t = {x, y, z}; std::sort(t.begin(), t.end()); return tris.count(t) > 0; };
     auto has_c = [&](int x, int y, int z, int u) { std::array<int, 4> t = {x, y, z, u}; std::sort(t.begin(), t.end()); return tets.count(t) > 0; };
@@ -347,7 +398,7 @@ static CollapsePre collapse_pre(W &w, int heh) {
         if (has_t(a, x, y) && has_t(b, x, y) && !has_c(a, b, x, y)) return r; }
     for (auto &t : tris) { if (t[0] == a || t[1] == a || t[2] == a || t[0] == b || t[1] == b || t[2] == b) continue;
         if (has_c(a, t[0], t[1], t[2]) && has_c(b, t[0], t[1], t[2])) return r; }
-    r.applicable = true; r.tok_b = tok(w, b);
+    r.applicable = true;
     int ta = tok(w, a);
     for (auto o : oriented) {
         bool ha = false, hb = false; for (int x : o) { ha = ha || x == a; hb = hb || x == b; }
@@ -374,6 +425,63 @@ static void oracle_collapse_post(W &w, const CollapsePre &pre, int ret, StepOut 
     }
     if (n != pre.n_expected_cells) out.fail("C15", "collapse_edge: cell count " + std::to_string(n) + " but expected " + std::to_string(pre.n_expected_cells));
     else if (got != pre.expected) out.fail("C15", "collapse_edge: resulting cells (as oriented vertex tuples) differ from the former cells without {a,b} with a replaced by b");
+}
+
+// Property tokens across collapse_edge ("values stay attached", C03; collapse part of C15).  Entities are named by vertex
+// identity tokens.  Strict: every entity that exists before and after and does not take part in the merge keeps its value
+// (this is where a self-swap that clears a bool shows); a rebuilt cell carries its cell value.  Half-entities (b,x..) that
+// are the image of (a,x..): the value must be the pre-existing one's own value if the target existed, else the carried
+// value of (a,x..).  The library swaps once per rebuilt tet, so with an even number of rebuilt tets on (a,x) the value is
+// dropped / with an odd number a pre-existing target is overwritten: exactly that outcome is reported as
+// KNOWN[collapse-props-parity]; any other value is a violation.
+static void oracle_collapse_props(W &w, const CollapsePre &pre, StepOut &out, const std::vector<const char *> &as) {
+    if (!pre.simplicial) return;
+    auto &m = w.mesh;
+    std::vector<std::map<Key, long>> Q[7];
+    bool qamb[7];
+    snap_props(w, Q, qamb);
+    stat_event("collapse_props_oracle");
+    static const char *KN[7] = {"vertex", "edge", "halfedge", "face", "halfface", "cell", "mesh"};
+    auto kstr = [](const Key &k) { std::string s = "("; for (size_t i = 0; i < k.size(); ++i) { if (i) s += ","; s += std::to_string(k[i]); } return s + ")"; };
+    int nfail = 0, nknown = 0;
+    auto fail = [&](const std::string &msg) { if (nfail++ < 3) for (auto a : as) out.fail(a, "collapse_edge property values: " + msg); };
+    auto known = [&](const std::string &msg) { if (nknown++ < 1) for (auto a : as) out.fail(a, "KNOWN[collapse-props-parity] " + msg); };
+    auto subst = [&](Key k, bool rot) { for (auto &x : k) if (x == pre.tok_b) x = pre.tok_a; return rot ? key_rot(k) : k; };
+    for (int k = 0; k < 7; ++k) for (size_t p = 0; p < w.props[k].size() && p < pre.P[k].size(); ++p) {
+        if (pre.amb[k] || qamb[k]) continue;
+        long def = w.props[k][p]->def();
+        const auto &A = pre.P[k][p]; const auto &B = Q[k][p];
+        for (auto &kv : B) {
+            const Key &key = kv.first; long val = kv.second;
+            bool has_b = std::find(key.begin(), key.end(), pre.tok_b) != key.end();
+            auto own = A.find(key);
+            std::string where = std::string(KN[k]) + " property " + std::to_string(p) + " on " + kstr(key);
+            if (k == 2 || k == 4) {
+                Key src = subst(key, k == 4);
+                auto sv = has_b ? A.find(src) : A.end();
+                const auto &uses = k == 2 ? pre.he_uses : pre.hf_uses;
+                auto u = uses.find(src); int n = u == uses.end() ? 0 : u->second;
+                if (!has_b || sv == A.end() || n == 0) {
+                    if (own != A.end() && val != own->second) fail(where + " changed from " + std::to_string(own->second) + " to " + std::to_string(val) + " although the entity does not take part in the merge");
+                    continue;
+                }
+                long spec = own != A.end() ? own->second : sv->second;
+                long parity = (n % 2) ? sv->second : (own != A.end() ? own->second : def);
+                if (val == spec) continue;
+                if (val == parity) { known(where + ": " + std::to_string(n) + " rebuilt tets use the collapsed half-entity; value " + std::to_string(val) + " instead of " + std::to_string(spec)); continue; }
+                fail(where + " is " + std::to_string(val) + ", neither its own / the carried value " + std::to_string(spec) + " nor the once-per-tet swap result " + std::to_string(parity));
+            } else if (k == 5) {
+                if (own != A.end() && !pre.rebuilt.count(key)) { if (val != own->second) fail(where + " changed from " + std::to_string(own->second) + " to " + std::to_string(val)); continue; }
+                if (!pre.applicable || !has_b) continue;
+                Key src = key_sorted(subst(key, false));
+                auto sv = A.find(src);
+                if (sv != A.end() && pre.rebuilt.count(src) && val != sv->second) fail(where + " is " + std::to_string(val) + " but the rebuilt cell carried " + std::to_string(sv->second));
+            } else {
+                // vertices, edges, faces, mesh: whole entities are never merged by value - what existed keeps its value
+                if (own != A.end() && val != own->second) fail(where + " changed from " + std::to_string(own->second) + " to " + std::to_string(val));
+            }
+        }
+    }
 }
 
 static void oracle_shape(W &w, StepOut &out, bool modified_by_set) {
@@ -441,6 +549,10 @@ static void oracle_tet_queries(W &w, StepOut &out) {
 static void run_script(const std::vector<std::string> &lines) {
     W w;
     bool orc = g_orc.has("C15");
+    bool orc03 = g_orc.has("C03");
+    std::vector<const char *> prop_names;
+    if (g_orc.on.count("C15") || g_orc.on.count("all")) prop_names.push_back("C15");
+    if (g_orc.on.count("C03") || g_orc.on.count("all")) prop_names.push_back("C03");
     bool tainted = false;          // a set_* / swap made shape statements inapplicable (not tet operations)
     int lineno = 0;
     for (auto &line : lines) {
@@ -456,7 +568,7 @@ static void run_script(const std::vector<std::string> &lines) {
                 CollapsePre pre;
                 Result r;
                 // operands of TCollapse are resolved here once more only to take the oracle's "before" picture
-                if (orc && nm == "TCollapse") { Args<TetMesh> a(w.mesh, toks[0][0] == '@', toks); int h = a.he(1);
+                if ((orc || orc03) && nm == "TCollapse") { Args<TetMesh> a(w.mesh, toks[0][0] == '@', toks); int h = a.he(1);
                     if (live_he(w.mesh, h) && w.mesh.has_full_bottom_up_incidences()) pre = collapse_pre(w, h); }
                 if (!exec_tet(w, toks, r)) r = exec_line(w, toks);
                 mark_new(w, old_nv);
@@ -464,11 +576,11 @@ static void run_script(const std::vector<std::string> &lines) {
                 dump_state(w, o);
                 if (nm == "SetF" || nm == "SetC" || nm == "SetE") tainted = true;
                 if (nm == "Clear") tainted = false;
-                if (orc && !r.rejected) {
+                if ((orc || orc03) && !r.rejected) {
                     StepOut so;
-                    oracle_shape(w, so, tainted);
-                    oracle_tet_queries(w, so);
-                    if (nm == "TCollapse") oracle_collapse_post(w, pre, (int)r.r, so);
+                    if (orc) { oracle_shape(w, so, tainted); oracle_tet_queries(w, so); }
+                    if (orc && nm == "TCollapse") oracle_collapse_post(w, pre, (int)r.r, so);
+                    if (nm == "TCollapse") oracle_collapse_props(w, pre, so, prop_names);
                     o << so.o.str();
                 }
             }
